@@ -83,6 +83,17 @@ func runMux(o *Out, r *rand.Rand, focus string) {
 		{"GGG", "r0 r1 w1 e0 r2 w2 f:1:-:5 f:2:-:6"}, // a call that fails after a later one was registered: its sequence number is spent
 		{"GGB", "r0 r1 w1 x0 r2 w2 f:2:-:6 f:1:-:5"},
 		{"BGG", "r0 r1 w1 c0 e0 r2 w2 f:1:-:7 f:2:-:8"},
+		{"RG", "r0 r1 w0 w1 f:1:-:5 f:0:-:6"}, // SendRaw and Go on one connection: each its own reply
+		{"GRG", "r0 w0 r1 w1 r2 w2 f:1:E:4 f:2:-:5 f:0:-:6"},
+		{"RB", "r0 w0 c0 r1 w1 f:1:-:3 f:0:-:4"}, // a raw caller gives up after its write; its late reply is nobody's
+		{"RR", "r0 r1 x0 w1 f:1:k:7"},            // a failed write of one raw call; the other takes any payload as it is
+		{"GR", "r0 w0 T r1"},                     // SendRaw after the connection was lost: fails at its write
+		{"RG", "r0 w0 r1 w1 C T"},
+		{"RGB", "r0 w0 r1 w1 f:0:qo:2 p:1:3 r2"},
+		{"BB", "r0 w0 G0:0:5 r1 w1 g:0:5 f:1:-:6"}, // a reply held inside its dispatch while its caller gives up: the late completion is nobody's
+		{"RR", "r0 w0 G0:0:5 r1 w1 g:0:5 f:1:-:6"},
+		{"BR", "r0 w0 r1 G0:0:7 w1 g:0:7 f:1:E:8"},
+		{"RBG", "r2 w2 r0 w0 G0:1:3 r1 w1 g:1:3 f:0:-:4 f:2:-:5"},
 	}
 	for _, c := range corpus {
 		muxCase(o, c[0], strings.Fields(c[1]))
@@ -109,7 +120,7 @@ func muxCase(o *Out, kinds string, evs []string) {
 	}
 	nontrivial := false
 	for _, e := range evs {
-		if e == "T" || e == "C" || e[0] == 'y' || e[0] == 'p' || e[0] == 'N' || e[0] == 'H' || e[0] == 'K' || e[0] == 'f' || e[0] == 'e' || e[0] == 'x' || e[0] == 'c' {
+		if e == "T" || e == "C" || e[0] == 'G' || e[0] == 'y' || e[0] == 'p' || e[0] == 'N' || e[0] == 'H' || e[0] == 'K' || e[0] == 'f' || e[0] == 'e' || e[0] == 'x' || e[0] == 'c' {
 			nontrivial = true
 		}
 		o.Count("ev." + e[:1])
